@@ -151,6 +151,11 @@ let run_model () =
          st := t_init; Hashtbl.reset keys; idx := 0; dead := false; last_ne := None;
          print_endline ("case " ^ String.concat " " name)
        | ["end"] -> print_endline "end"
+       | ["defer"; _] ->
+         (* a plain deferred call: no effect on the timer model (its ordering against timer callbacks is
+            checked on the real trace by the harness) *)
+         if !dead then print_endline "SKIP" else (print_endline "U"; print_endline (dump !st));
+         incr idx
        | ws ->
          if !dead then print_endline "SKIP"
          else begin
@@ -188,6 +193,11 @@ let run_monitor () =
           | Some ws ->
             pending_op := None;
             if !dead || res = ["SKIP"] then print_endline "SKIP"
+            else if List.hd ws = "defer" then begin
+              (* keep the monitor's op counter in step with the key references: a neutral observation *)
+              let (s1, v) = mon_step !ms (ONextWaitMax (Z0, Z0, true)) (Some (RNs Z0)) in
+              ms := s1; print_endline (vbits v)
+            end
             else begin
               let op = parse_op keys ws in
               let out = parse_out res in
